@@ -1037,6 +1037,44 @@ def sec_pauli_sum(ctx, rng, case):
     acc *= P
     ctx.check(acc is acc0 and close(sum_ref_mat(acc, qs), c * (MA + MB - MP) @ MB @ MP), mon, "C14:psum-inplace", lambda: str(acc), c=c, **wit)
     ctx.check(close(sum_ref_mat(SA, qs), MA) and close(sum_ref_mat(SB, qs), MB), "operands-unchanged", "C14:psum-operand-mutated", "", **wit)
+    # one object through a history of in-place edits, asked for its qubits / default-order matrix in between: every answer
+    # describes the terms the object holds at that moment (nothing remembered from before an edit)
+    H, MH, log = SA.copy(), MA.copy(), []
+    for _ in range(int(rng.integers(2, 7))):
+        kind = int(rng.integers(7))
+        if kind == 0:
+            H += SB; MH = MH + MB; log.append("+=B")
+        elif kind == 1:
+            H -= P; MH = MH - MP; log.append("-=P")
+        elif kind == 2:
+            H *= P; MH = MH @ MP; log.append("*=P")
+        elif kind == 3:
+            H *= SB; MH = MH @ MB; log.append("*=B")
+        elif kind == 4:
+            H *= c; MH = MH * c; log.append("*=c")
+        elif kind == 5:
+            H /= c; MH = MH / c; log.append("/=c")
+        else:
+            w2, l2 = int(rng.integers(n)), "XYZ"[int(rng.integers(3))]
+            H *= _S["gate"][l2](qs[w2]); MH = MH @ R.smat({w2: l2}, 1, n); log.append("*=%s%d" % (l2, w2))
+        tnow = sum_ref(H, qs)
+        if tnow is None or not close(R.sum_mat(tnow, n), MH):
+            ctx.check(False, "psum-history", "C14:psum-history-terms", "terms after %s differ from the matrix algebra" % log, history=list(log), **wit)
+            break
+        used = sorted({w_ for _, s_ in tnow for w_ in s_}, key=lambda w_: qs[w_])
+        want_q = sorted(qs[w_] for w_ in used)
+        got_q = list(H.qubits)
+        ok = got_q == want_q
+        if ok:
+            rel = {w_: want_q.index(qs[w_]) for w_ in used}
+            wantd = R.sum_mat([(cf, {rel[w_]: l_ for w_, l_ in s_.items()}) for cf, s_ in tnow], len(want_q))
+            gotd = H.matrix()
+            ok = gotd.shape == wantd.shape and close(gotd, wantd)
+        ctx.check(ok, "psum-history", "C14:psum-history-stale-answer",
+                  lambda: "after %s the sum %s reports qubits %r (terms act on %r) or a default-order matrix that is not the sum of its terms" % (log, H, got_q, want_q),
+                  history=list(log), **wit)
+        if not ok:
+            break
     # integer powers
     k = int(rng.integers(0, 4))
     r = SA ** k
